@@ -325,3 +325,91 @@ Proof.
   unfold st', hstate_of. rewrite (hstep_insert fx st o pkg tags ob Ho). cbn [fst snd st_objs st_heap].
   split; [assumption|]. apply h_insert_view. now apply (hw_closed _ W o).
 Qed.
+
+(** * The same for every derivation documented as returning a copy *)
+
+Definition copying_of (op : hop) : option nat :=
+  match op with
+  | HCopy o | HReverseCopy o | HChooseCopy o _ | HFilterPCopy o _ | HFilterPTCopy o _
+  | HFilterTCopy o _ | HFacet o _ => Some o
+  | _ => None
+  end.
+
+Lemma hstep_copying_derived fx st op o ob :
+  copying_of op = Some o -> nth_error (st_objs st) o = Some ob -> hwf st ->
+  herr_of (hstep fx st op) = None ->
+  exists h' ob', hstate_of (hstep fx st op) = new_obj st (h', ob')
+                 /\ derived_from (st_heap st) h' [] ob'.
+Proof.
+  intros Hc Ho W He. pose proof (hw_closed _ W o ob Ho) as C.
+  destruct op as [|o1 lines tf|o1 pkg tags|o1|o1|o1|o1 l|o1 l|o1 f|o1 f|o1 g|o1 g|o1 f|o1 f|o1 order];
+    simpl in Hc; try discriminate; inversion Hc; subst o1; clear Hc.
+  - (* copy *)
+    unfold hstate_of. rewrite (hstep_copy fx st o ob Ho).
+    destruct (alloc_vdict _ _) as [h1 d1] eqn:A1. destruct (alloc_vdict h1 _) as [h2 d2] eqn:A2.
+    destruct (two_vdicts' _ _ _ _ _ _ _ A1 A2) as [D _]. now exists h2, (d1, d2).
+  - (* reverse_copy *)
+    unfold hstate_of. simpl. rewrite Ho.
+    destruct (alloc_vdict _ _) as [h1 d1] eqn:A1. destruct (alloc_vdict h1 _) as [h2 d2] eqn:A2.
+    destruct (two_vdicts' _ _ _ _ _ _ _ A1 A2) as [D _]. now exists h2, (d1, d2).
+  - (* choose_copy *)
+    unfold hstate_of, herr_of in *. simpl in *. rewrite Ho in *.
+    destruct (forallb _ l); [|discriminate]. simpl.
+    destruct (h_of_db_copy_facts (st_heap st) (choose_d (get_dict (st_heap st) (fst ob)) l)) as [D _].
+    eexists _, _. split; [|exact D]. now rewrite <- pair_eta.
+  - unfold hstate_of. simpl. rewrite Ho. simpl.
+    destruct (h_of_db_copy_facts (st_heap st) (filter (fun kr => f (fst kr)) (get_dict (st_heap st) (fst ob)))) as [D _].
+    eexists _, _. split; [|exact D]. now rewrite <- pair_eta.
+  - unfold hstate_of. simpl. rewrite Ho. simpl.
+    destruct (h_of_db_copy_facts (st_heap st)
+                (filter (fun kr => g (fst kr) (get_set (st_heap st) (snd kr))) (get_dict (st_heap st) (fst ob)))) as [D _].
+    eexists _, _. split; [|exact D]. now rewrite <- pair_eta.
+  - unfold hstate_of. simpl. rewrite Ho. simpl.
+    destruct (h_of_rdb_copy_facts (st_heap st) (filter (fun kr => f (fst kr)) (get_dict (st_heap st) (snd ob)))) as [D _].
+    eexists _, _. split; [|exact D]. now rewrite <- pair_eta.
+  - (* facet *)
+    unfold hstate_of, herr_of in *. rewrite (hstep_facet fx st o order ob Ho) in *.
+    destruct (h_new (st_heap st)) as [h1 fc] eqn:En.
+    destruct (h_facet fx h1 (get_dict (st_heap st) (fst ob)) fc order) as [[h2 tr]|e] eqn:Ef; [|discriminate].
+    destruct (facet_derived fx _ ob order h1 fc h2 tr C En Ef) as [D _]. now exists h2, fc.
+Qed.
+
+Theorem copying_independent fx ops op o ob (l : mixed) :
+  let st := hrun fx empty_state ops in
+  copying_of op = Some o -> nth_error (st_objs st) o = Some ob ->
+  herr_of (hstep fx st op) = None ->
+  let st1 := hstate_of (hstep fx st op) in
+  let o' := length (st_objs st) in
+  exists ob',
+    nth_error (st_objs st1) o' = Some ob'
+    /\ nth_error (st_objs st1) o = Some ob
+    /\ view (st_heap st1) ob = view (st_heap st) ob
+    /\ let st2 := hrun fx st1 (to_hops o o' l) in
+       st_objs st2 = st_objs st1
+       /\ view (st_heap st2) ob = lin_inserts fx (view (st_heap st) ob) (pick false l)
+       /\ view (st_heap st2) ob' = lin_inserts fx (view (st_heap st1) ob') (pick true l).
+Proof.
+  intros st Hc Ho He st1 o'.
+  assert (W : hwf st) by (apply hrun_hwf, hwf_empty).
+  pose proof (hw_closed _ W o ob Ho) as C.
+  destruct (hstep_copying_derived fx st op o ob Hc Ho W He) as [h2 [ob' [E1 D]]].
+  unfold st1. rewrite E1. exists ob'.
+  assert (Ho' : nth_error (st_objs (new_obj st (h2, ob'))) o' = Some ob').
+  { unfold new_obj. simpl. unfold o'. rewrite nth_error_app2 by lia. now rewrite Nat.sub_diag. }
+  assert (Ho1 : nth_error (st_objs (new_obj st (h2, ob'))) o = Some ob).
+  { unfold new_obj. simpl. rewrite nth_error_app1; [assumption|]. apply nth_error_Some. congruence. }
+  assert (Hlt : o < o') by (unfold o'; apply nth_error_Some; congruence).
+  pose proof (df_ext _ _ _ _ D) as E.
+  assert (Vo : view h2 ob = view (st_heap st) ob) by apply (ext_view _ _ _ E C).
+  split; [exact Ho'|]. split; [exact Ho1|]. split; [exact Vo|].
+  cbv zeta.
+  assert (C2 : closed_obj h2 ob) by now apply (ext_closed _ _ _ E).
+  assert (S2 : sep h2 ob ob').
+  { apply sep_sym. apply (derived_sep _ _ _ _ _ D C). intros r []. }
+  destruct (mixed_inserts fx o o' ob ob' l h2 (st_objs st ++ [ob'])) as [I1 [I2 I3]];
+    try assumption; try lia.
+  - apply (df_closed _ _ _ _ D).
+  - unfold new_obj. cbn [fst snd]. split; [exact I1|]. split.
+    + etransitivity; [exact I2|]. now rewrite Vo.
+    + exact I3.
+Qed.
